@@ -268,6 +268,10 @@ def Cache.request (c : Cache) (frame : Nat) (buildable : Bool) : Cache × Option
     if buildable then ({ dag := some (frame, c.nextId), nextId := c.nextId + 1 }, some c.nextId)
     else (c, none)
 
+/-- `decoder_start_utt` (decoder.c l.939-943): the residual lattice of the previous utterance is released, so the
+cache is valid only within one utterance (same utterance ∧ same frame count) -/
+def Cache.startUtt (c : Cache) : Cache := { c with dag := none }
+
 /-! ## C12: traversal, best path, A*, exact forward/backward -/
 
 /-- fan-in counters (`info.fanin`, an `int32`) and the FIFO of links -/
